@@ -68,3 +68,26 @@ Theorem C06_forwarded_wf : forall md5, (forall x, length (md5 x) = 16%nat) -> (f
   (nth 0 b 0 = Consts.RAD_Accounting_Request -> acct_request_auth_ok md5 b (sc_secret (srvconf_of cfg s)) = true).
 Proof. exact radsrv_emits_wf. Qed.
 Print Assumptions C06_forwarded_wf.
+
+(* the reply path (PARTIAL: configurations with no rewrite block on it): whatever replyh delivers is a well-formed
+   packet carrying a Response Authenticator valid under the receiving client's secret and ITS Request
+   Authenticator, and - Access-Accept/Reject/Challenge, no TTL insertion configured - a verifying
+   Message-Authenticator as first attribute.  msg_ok is kept by the TTL check, the MS-MPPE and Tunnel-Password
+   re-encryption loops, the User-Name restoration and the Message-Authenticator placeholder. *)
+Theorem C06_delivered_wf : forall md5, (forall x, length (md5 x) = 16%nat) -> (forall x, wf_bytes (md5 x) = true) ->
+  forall rx cfg fs st s buf now rnd c p,
+  In (OReply c p) (snd (replyh md5 rx cfg fs st s buf now rnd)) ->
+  sc_rwin (srvconf_of cfg s) = None -> cc_rwout (clconf_of cfg c) = None ->
+  wf_bytes buf = true -> (20 <= length buf)%nat -> wf_bytes rnd = true ->
+  (forall h r, slot_of st s (nth 1 buf 0) = Some h -> get_rq st h = Some r ->
+     rq_replybuf r = None /\
+     length (rq_rqauth r) = 16%nat /\ wf_bytes (rq_rqauth r) = true /\ is_byte (rq_rqid r) = true /\
+     match rq_origuser r with Some ou => wf_bytes ou = true | None => True end) ->
+  is_byte (o_addttl (cf_opt cfg)) = true -> is_byte (cc_addttl (clconf_of cfg c)) = true ->
+  exists r, (exists h, slot_of st s (nth 1 buf 0) = Some h /\ get_rq st h = Some r) /\
+    wf_packet p = true /\
+    response_auth_ok md5 p (rq_rqauth r) (cc_secret (clconf_of cfg c)) = true /\
+    (o_addttl (cf_opt cfg) = 0 -> cc_addttl (clconf_of cfg c) = 0 -> reply_code (nth 0 p 0) = true ->
+     first_is_msgauth p = true /\ all_msgauth_ok md5 p (Some (rq_rqauth r)) (cc_secret (clconf_of cfg c)) = true).
+Proof. exact replyh_emits_wf. Qed.
+Print Assumptions C06_delivered_wf.
